@@ -4,6 +4,7 @@ import (
 	"errors"
 	"fmt"
 	"html/template"
+	"os"
 	"strings"
 
 	"verifmc/engine"
@@ -77,11 +78,11 @@ var c05Atoms = []c05Atom{
 	{"helper(T,err)", `fail()`, "sentinel"},
 	{"helper(err)", `failE()`, "sentinel"},
 	{"method(T,err)", `st.Fail()`, "sentinel"},
-	{"chain-field-on-failing-helper", `failP().Name`, "sentinel"},
-	{"chain-method-on-failing-helper", `failP().Hello()`, "sentinel"},
-	{"chain-index-on-failing-helper", `failP().Tags[0]`, "sentinel"},
-	{"chain-on-failing-method", `st.FailP().Name`, "sentinel"},
-	{"index-member-on-failing", `failL()[0].Name`, "sentinel"},
+	{"chain-field-on-failing-helper", `(failP().Name)`, "sentinel"},
+	{"chain-method-on-failing-helper", `(failP().Hello())`, "sentinel"},
+	{"chain-index-on-failing-helper", `(failP().Tags[0])`, "sentinel"},
+	{"chain-on-failing-method", `(st.FailP().Name)`, "sentinel"},
+	{"index-member-on-failing", `(failL()[0].Name)`, "sentinel"},
 	{"int+string", `(1 + mark("a"))`, "op"},
 	{"index-out-of-range", `one[mark(9)]`, "op"},
 	{"div-by-zero", `(1 / mark(0))`, "op"},
@@ -295,6 +296,9 @@ func c05One(t *engine.T, wi, wj int, st c05Stmt, exprs []*c05Expr, at c05Atom) {
 			if !e.reached {
 				if err == nil {
 					return "", engine.Failf("harness", "failing site not reached but render succeeded: %q -> %q", src, out)
+				}
+				if os.Getenv("C05_DEBUG") != "" {
+					fmt.Fprintf(os.Stderr, "NOT-REACHED %s :: %v\n", desc, err)
 				}
 				return "not-reached", nil
 			}
